@@ -626,8 +626,23 @@ pub fn final_view(w: &mut World) -> Value {
         Outcome::Panic(m) | Outcome::Crash(m) => json!({"panic": m}),
     };
     if let Some(m) = abs.as_object_mut() {
-        for k in ["keys", "now", "tasks", "other_tasks"] {
+        for k in ["keys", "now", "tasks", "other_tasks", "kst"] {
             m.remove(k);
+        }
+        // The outcome of the most recent exchange depends on how many
+        // exchanges there were (a restart queues one more synchronisation,
+        // which fails e.g. for a CA whose publisher was removed): not part
+        // of the comparison; what the status says is published, is.
+        for view in ["pst", "rst"] {
+            if let Some(per_ca) = m.get_mut(view).and_then(|v| {
+                v.as_object_mut()
+            }) {
+                for (_, st) in per_ca.iter_mut() {
+                    if let Some(st) = st.as_object_mut() {
+                        st.remove("last");
+                    }
+                }
+            }
         }
     }
     let rpv = match guarded(|| w.project_rp_abs()) {
